@@ -26,10 +26,20 @@
 (*               a "multi" placeholder is ordinary text for the code.       *)
 (*   "nonutf8"   Dev_NonUtf8BytesRaise: step 3 decodes the bytes as UTF-8;  *)
 (*               a body in another charset raises UnicodeDecodeError.       *)
+(*   "blocktag"  Dev_EndTagInsideGeneratedBlockCounts: step 3 scans the     *)
+(*               text *after* step 2, so a `</head>` inside the JS block    *)
+(*               that replaced a JS placeholder (component JS such as       *)
+(*               `frame.srcdoc = "<html><head></head>..."`) is taken for    *)
+(*               the document's, and the CSS is inserted into the script    *)
+(*               (symmetrically `</body>` inside the CSS block).            *)
+(*                                                                          *)
+(* blk = [css, js, frag: the generated blocks (texts),                      *)
+(*        jsh: 0-based offsets of lower-case </head> tags inside js,         *)
+(*        cssb: offsets of lower-case </body> tags inside css]               *)
 (***************************************************************************)
 EXTENDS DepsInsert
 
-Devs == {"offset", "multiattr", "nonutf8"}
+Devs == {"offset", "multiattr", "nonutf8", "blocktag"}
 
 InsertAt(text, at, x) == SubSeq(text, 1, at) \o x \o SubSeq(text, at + 1, Len(text))
 
@@ -42,10 +52,13 @@ NoIndex == 0 - 1
 Seen(doc, fixes) ==
   [i \in DOMAIN doc |-> IF "multiattr" \notin fixes /\ doc[i].t \in {"cssph", "jsph"} /\ doc[i].v = "multi"
                         THEN Txt("unrecognised placeholder") ELSE doc[i]]
+Sites(doc, kind) == {i \in DOMAIN doc : doc[i].t = kind}
 
-\* doc: segments; txt[i]: the text of segment i; css/js/frag: the generated blocks
-ImplOut(doc0, txt, css, js, frag, E, mode, fixes) ==
+\* doc0: segments; txt[i]: the text of segment i; blk: the generated blocks; E: the empty text
+ImplOut(doc0, txt, blk, E, mode, fixes) ==
   LET doc == Seen(doc0, fixes)
+      css == blk.css
+      js  == blk.js
       sub == [i \in DOMAIN doc |->
                 CASE doc[i].t = "marker" -> E
                   [] doc[i].t = "cssph"  -> IF mode = "document" THEN css ELSE E
@@ -53,38 +66,53 @@ ImplOut(doc0, txt, css, js, frag, E, mode, fixes) ==
                   [] OTHER               -> txt[i]]
       html     == CatTextN(sub, Len(doc), E)
       off(i)   == Len(CatTextN(sub, i - 1, E))          \* 0-based index of segment i in html
-      heads    == Ends(doc, "head", FALSE)              \* the regex is case-sensitive
-      bodies   == Ends(doc, "body", FALSE)
-      h == IF ~Has(doc, "cssph") /\ heads # {} THEN off(Min(heads)) ELSE NoIndex
-      b == IF ~Has(doc, "jsph") /\ bodies # {} THEN off(Max(bodies)) ELSE NoIndex
+      inBlocks == "blocktag" \notin fixes               \* end tags inside substituted blocks count
+      \* the regex is case-sensitive
+      heads    == {off(i) : i \in Ends(doc, "head", FALSE)}
+                    \cup (IF inBlocks THEN {off(i) + o : i \in Sites(doc, "jsph"), o \in blk.jsh} ELSE {})
+      bodies   == {off(i) : i \in Ends(doc, "body", FALSE)}
+                    \cup (IF inBlocks THEN {off(i) + o : i \in Sites(doc, "cssph"), o \in blk.cssb} ELSE {})
+      h == IF ~Has(doc, "cssph") /\ heads # {} THEN Min(heads) ELSE NoIndex
+      b == IF ~Has(doc, "jsph") /\ bodies # {} THEN Max(bodies) ELSE NoIndex
       afterCss    == IF h # NoIndex THEN InsertAt(html, h, css) ELSE html
       indexOffset == IF h # NoIndex THEN Len(css) ELSE 0
       shift       == IF "offset" \in fixes /\ b < h THEN 0 ELSE indexOffset
       afterJs     == IF b # NoIndex THEN InsertAt(afterCss, b + shift, js) ELSE afterCss
-  IN IF mode = "document" THEN afterJs ELSE html \o frag
+  IN IF mode = "document" THEN afterJs ELSE html \o blk.frag
 
 \* step 3 runs (and decodes the bytes) unless both kinds of placeholder were found
 ImplDecodes(doc0, mode, fixes) ==
   LET doc == Seen(doc0, fixes) IN mode = "document" /\ ~(Has(doc, "cssph") /\ Has(doc, "jsph"))
 
 \* The abstract result rendered as a text with the same concretisation.
-Flat(doc, out, txt, css, js, frag, E) ==
+Flat(doc, out, txt, blk, E) ==
   CatTextN([j \in DOMAIN out |->
               CASE out[j].k = "seg"  -> txt[out[j].i]
-                [] out[j].k = "css"  -> css
-                [] out[j].k = "js"   -> js
-                [] out[j].k = "frag" -> frag], Len(out), E)
+                [] out[j].k = "css"  -> blk.css
+                [] out[j].k = "js"   -> blk.js
+                [] out[j].k = "frag" -> blk.frag], Len(out), E)
 
 (* ---- shapes on which the deviations show -------------------------------- *)
 \* document mode, no recognised placeholder of either kind, the last lower-case </body>
 \* lies before the first lower-case </head>, CSS block not empty: the JS lands len(css)
 \* characters to the right of the </body>, displacing document text (or inside the CSS
 \* block that was just inserted).
-DevOffsetShape(doc0, mode, css, E, fixes) ==
+DevOffsetShape(doc0, mode, blk, E, fixes) ==
   LET doc == Seen(doc0, fixes) IN
   /\ mode = "document" /\ ~Has(doc, "cssph") /\ ~Has(doc, "jsph")
   /\ Ends(doc, "head", FALSE) # {} /\ Ends(doc, "body", FALSE) # {}
   /\ Max(Ends(doc, "body", FALSE)) < Min(Ends(doc, "head", FALSE))
-  /\ css # E
+  /\ blk.css # E
 DevMultiShape(doc) == \E i \in DOMAIN doc : doc[i].t \in {"cssph", "jsph"} /\ doc[i].v = "multi"
+\* document mode; exactly one kind of placeholder is recognised, the block put there contains an
+\* end tag of the *other* kind's default location, and that tag wins the first-/last- search.
+DevBlockTagShape(doc0, mode, blk, E, fixes) ==
+  LET doc == Seen(doc0, fixes)
+      hs == Ends(doc, "head", FALSE)
+      bs == Ends(doc, "body", FALSE) IN
+  /\ mode = "document"
+  /\ \/ /\ ~Has(doc, "cssph") /\ Has(doc, "jsph") /\ blk.jsh # {} /\ blk.css # E
+        /\ hs # {} => Min(Sites(doc, "jsph")) < Min(hs)
+     \/ /\ ~Has(doc, "jsph") /\ Has(doc, "cssph") /\ blk.cssb # {} /\ blk.js # E
+        /\ bs # {} => Max(Sites(doc, "cssph")) > Max(bs)
 =============================================================================
